@@ -14,6 +14,37 @@ theorem hasNl_append_left {a : Bytes} (b : Bytes) (h : hasNl a = true) : hasNl (
   rw [List.any_append, h]
   rfl
 
+theorem consumed_eq_nil (l : Bytes) : consumed l = [] ↔ hasNl l = false := by
+  induction l with
+  | nil => simp [consumed, hasNl]
+  | cons x xs ih =>
+    cases hc : consumed xs with
+    | nil =>
+      have hx : hasNl xs = false := ih.mp hc
+      have hx' : xs.any (fun b => b == 10) = false := hx
+      by_cases h10 : (x == 10) = true <;> simp [consumed, hc, hasNl, hx', h10]
+    | cons y ys =>
+      have hx : hasNl xs = true := by
+        cases h : hasNl xs with
+        | true => rfl
+        | false => rw [ih.mpr h] at hc; cases hc
+      have hx' : xs.any (fun b => b == 10) = true := hx
+      simp [consumed, hc, hasNl, hx']
+
+theorem consumed_cons (x : UInt8) (xs : Bytes) :
+    consumed (x :: xs) = if hasNl (x :: xs) = true then x :: consumed xs else [] := by
+  cases hc : consumed xs with
+  | nil =>
+    have hx' : xs.any (fun b => b == 10) = false := (consumed_eq_nil xs).mp hc
+    by_cases h10 : (x == 10) = true <;> simp [consumed, hc, hasNl, hx', h10]
+  | cons y ys =>
+    have hx : hasNl xs = true := by
+      cases h : hasNl xs with
+      | true => rfl
+      | false => rw [(consumed_eq_nil xs).mpr h] at hc; cases hc
+    have hx' : xs.any (fun b => b == 10) = true := hx
+    simp [consumed, hc, hasNl, hx']
+
 theorem consumed_append (a b : Bytes) : ∃ t, consumed (a ++ b) = consumed a ++ t := by
   induction a with
   | nil => exact ⟨consumed b, rfl⟩
@@ -23,9 +54,9 @@ theorem consumed_append (a b : Bytes) : ∃ t, consumed (a ++ b) = consumed a ++
       obtain ⟨t, ht⟩ := ih
       refine ⟨t, ?_⟩
       show consumed (x :: (xs ++ b)) = _
-      simp only [consumed, h, h', if_true, ht, List.cons_append]
+      simp only [consumed_cons, h, h', if_true, ht, List.cons_append]
     · refine ⟨consumed (x :: xs ++ b), ?_⟩
-      simp [consumed, h]
+      simp [consumed_cons, h]
 
 theorem consumed_prefix (a : Bytes) : ∃ t, consumed a ++ t = a := by
   induction a with
@@ -33,8 +64,8 @@ theorem consumed_prefix (a : Bytes) : ∃ t, consumed a ++ t = a := by
   | cons x xs ih =>
     by_cases h : hasNl (x :: xs) = true
     · obtain ⟨t, ht⟩ := ih
-      exact ⟨t, by simp only [consumed, h, if_true, List.cons_append, ht]⟩
-    · exact ⟨x :: xs, by simp [consumed, h]⟩
+      exact ⟨t, by simp only [consumed_cons, h, if_true, List.cons_append, ht]⟩
+    · exact ⟨x :: xs, by simp [consumed_cons, h]⟩
 
 theorem consumed_snoc_nl (l : Bytes) : consumed (l ++ [10]) = l ++ [10] := by
   induction l with
@@ -42,14 +73,14 @@ theorem consumed_snoc_nl (l : Bytes) : consumed (l ++ [10]) = l ++ [10] := by
   | cons x xs ih =>
     have : hasNl (x :: (xs ++ [10])) = true := by simp [hasNl]
     show consumed (x :: (xs ++ [10])) = _
-    simp only [consumed, this, if_true, ih, List.cons_append]
+    simp only [consumed_cons, this, if_true, ih, List.cons_append]
 
 theorem consumed_tail {x : UInt8} {xs : Bytes} (h : consumed (x :: xs) = x :: xs) :
     consumed xs = xs ∧ hasNl (x :: xs) = true := by
   by_cases hn : hasNl (x :: xs) = true
-  · simp only [consumed, hn, if_true, List.cons.injEq, true_and] at h
+  · simp only [consumed_cons, hn, if_true, List.cons.injEq, true_and] at h
     exact ⟨h, hn⟩
-  · simp [consumed, hn] at h
+  · simp [consumed_cons, hn] at h
 
 /-! #### unparseable lines -/
 
@@ -214,7 +245,7 @@ theorem laws : ParserLaws model where
           rw [← (run_inv rx s cb0 hr).1]
           exact hp
   info_url_trailer := by
-    intro body t u hu hp
+    intro body t u hu _ hp
     obtain ⟨hw, rfl⟩ := parse_some hp
     obtain ⟨hne, hcons, hbad⟩ := (wholeOk_iff body).mp hw
     have hw' : wholeOk (body ++ trailer u) = true := by
